@@ -96,6 +96,10 @@ pub trait Engine: Sync {
         // a cap, not a target: quick runs take a fraction of it on an idle machine
         Duration::from_secs(tier.pick(150, 1500))
     }
+    /// address-space cap of one worker process, in MiB (a runaway evaluation dies instead of exhausting the machine)
+    fn as_limit_mb(&self, _tier: Tier) -> u64 {
+        3072
+    }
     /// enumerate this worker's share of the space and evaluate it
     fn explore(&self, tier: Tier, ctx: &mut Ctx);
     /// evaluate one case (replay and shrinking)
@@ -436,7 +440,7 @@ struct WorkerOut {
     stderr_tail: String,
 }
 
-fn run_worker(id: &str, tier: Tier, i: u64, n: u64, trace_file: Option<&Path>, hard_limit: Duration) -> WorkerOut {
+fn run_worker(id: &str, tier: Tier, i: u64, n: u64, trace_file: Option<&Path>, hard_limit: Duration, as_limit_mb: u64) -> WorkerOut {
     let exe = std::env::current_exe().expect("current_exe");
     let mut cmd = Command::new(exe);
     cmd.arg(id)
@@ -459,7 +463,7 @@ fn run_worker(id: &str, tier: Tier, i: u64, n: u64, trace_file: Option<&Path>, h
     // attributed to its traced case, not as a machine without memory: cap the worker's address space
     {
         use std::os::unix::process::CommandExt;
-        let mb: u64 = std::env::var("TGV_AS_LIMIT_MB").ok().and_then(|s| s.parse().ok()).unwrap_or(3072);
+        let mb: u64 = std::env::var("TGV_AS_LIMIT_MB").ok().and_then(|s| s.parse().ok()).unwrap_or(as_limit_mb);
         cmd.env("MALLOC_ARENA_MAX", "4");
         unsafe {
             cmd.pre_exec(move || {
@@ -555,13 +559,14 @@ fn parent_main(engine: &dyn Engine, tier: Tier) -> ! {
     let trace_always = engine.trace_always();
     // budget expiry is checked between cases; a worker needing three times its budget plus a minute is stuck inside one
     let hard_limit = engine.budget(tier) * 3 + Duration::from_secs(60);
+    let as_limit_mb = engine.as_limit_mb(tier);
     let outs: Vec<WorkerOut> = std::thread::scope(|s| {
         let handles: Vec<_> = (0..n)
             .map(|i| {
                 let work = work.clone();
                 s.spawn(move || {
                     let tf = work.join(format!("trace.{i}"));
-                    let out = run_worker(id, tier, i, n, trace_always.then_some(tf.as_path()), hard_limit);
+                    let out = run_worker(id, tier, i, n, trace_always.then_some(tf.as_path()), hard_limit, as_limit_mb);
                     (i, out)
                 })
             })
@@ -615,7 +620,7 @@ fn parent_main(engine: &dyn Engine, tier: Tier) -> ! {
                 let mut status = out.status.clone();
                 let mut tail = out.stderr_tail.clone();
                 if !trace_always {
-                    let again = run_worker(id, tier, i as u64, n, Some(&tf), hard_limit);
+                    let again = run_worker(id, tier, i as u64, n, Some(&tf), hard_limit, as_limit_mb);
                     if again.stats.is_some() {
                         machinery_errors.push(format!(
                             "worker {i} died ({status}) but completed when re-run with tracing: {tail}"
